@@ -77,6 +77,19 @@ NOTES = {
  "C05-w11m1": "at first no verdict (exit 2): os.DirFS was not modelled; now it is (an fs.FS over simfs with fs.ValidPath like the real one). Then still missed: the root file was always in the top directory, so no include climbed above it. A fifth of the layouts now put the root file into books/; then caught by C05 and C04.",
  "C12-w11m1": "C12 itself stays silent (its price graphs had no negative quote); caught by C03, whose journals draw negative quotes since the ninth wave (valuation fails although every price exists).",
  "C19-w11m2": "caught by engine R as a hang of the race-instrumented binary (a copied, write-locked RWMutex). Engine S cannot see it: its lock table is keyed by the mutex's address, and a copy is a fresh, free lock there.",
+ "C03-w12m1": "missed at first: C03 passed no --account filter. The valuation reference now filters each posting by its own account (position, mirrored income account, counter-account; Equity:Equity carries the closed totals of all accounts), and 15% of C03's cases pass such a filter; then caught (expected-row-missing).",
+ "C04-w12m1": "missed at first: accrual amounts were large. A fifth of the inexact accruals are now 'dust' (0.1-3.0 units daily over 40-150 days, so a period's share truncates to 0.0), and C04 draws inexact accruals at all; then caught.",
+ "C05-w12m1": "missed at first: no file name contained a shell-pattern character. '2020[q1].knut', 'what?.knut' and 'all*.knut' joined the reusable file names; then caught by C05 and C04.",
+ "C06-w12m2": "C06 stays silent (under the serialising scheduler the in-place sort is one step); missed by C19 at first because print and check were not among the race engine's commands; they are now; then caught by C19 (data race in compare.Sort).",
+ "C09-w12m1": "missed at first: no description contained a backslash. Three were added (one at the end, two at the end, two in the middle plus backslash-n); then caught by C09 (printed journal rejected) and C04.",
+ "C14-w12m1": "missed at first: C14 never passed a universe file of an unexpected shape. Nine were added to the flags sub-check (numbers, booleans and null as members, a list or a scalar where a class is expected, nested classes, empty, garbage); then caught (panic).",
+ "C14-w12m2": "missed at first: no flag carried the largest integer. -m with 9223372036854775807 as level, suffix or both, and --last 2147483647 joined the flags sub-check; then caught (panic: makeslice).",
+ "C15-w12m1": "missed at first: targets were never already formatted. C15 now also runs infer on the formatted target (same rules, same result as on the target as written); then caught (placeholder-kept-despite-candidates:formatted-target).",
+ "C15-w12m2": "missed at first: no three candidates had scores within 1e-9 of each other. A dedicated workload (counts 1001.1008/1229, 991.1019/1230, 986.1025/1231: scores 8e-10 apart, names in the reverse order of the scores) was added; then caught (choice-differs-between-runs).",
+ "C16-w12m2": "missed at first: no journal had more than 128 days that carry directives. One C16 case in 150 now has 300-600 days of daily quotes; then caught (transactions lost).",
+ "C19-w12m2": "missed at first: only one stage failed per run. fail-double (a file that cannot be converted into the model plus a syntax error at the very end of another) was added; then caught (deadlock).",
+ "C01-w12m1": "C01 stays silent (an append is one step under the serialising scheduler); caught by C19's race engine (data race in sumTree).",
+ "C12-w12m2": "C12 stays silent (library level, one goroutine); caught by C19's race engine (data race in price.Multiply).",
 }
 DROPPED = [
  "C04 (wave 7, first change): Builder.Build skips the day sort while days 'arrive in ascending order'; the same idea as C05-m2 (caught by C04, C05, C19).",
